@@ -340,8 +340,11 @@ pub fn run_check(prop: &dyn Prop, tier: Tier, seed: u64) -> RunResult {
         let r2 = replay_subprocess(id, &path, Duration::from_secs(hang_s));
         match (r1, r2) {
             (Ok(a), Ok(b)) => {
-                if a != b {
-                    machinery.push(format!("replay of {} is not deterministic: {:?} vs {:?}", path.display(), a.observation, b.observation));
+                // two replays must show the same violation KEYS and the same observation; the free-text detail of a
+                // violation may name a different witness where the subject itself is uncontrolled (real rayon pools)
+                let keys = |r: &ReplayOutcome| -> Vec<String> { r.violations.iter().map(|v| v.0.clone()).collect() };
+                if keys(&a) != keys(&b) || a.observation != b.observation {
+                    machinery.push(format!("replay of {} is not deterministic: {:?} {:?} vs {:?} {:?}", path.display(), keys(&a), a.observation, keys(&b), b.observation));
                     continue;
                 }
                 let reproduced = a.violations.iter().any(|(k, _)| *k == v.key)
